@@ -247,6 +247,13 @@ fn collect(state: &State, possible_cycles: &PossibleCycles) {
 
     let _drop_guard = DropGuard { state };
 
+    // A collection may be started from a finalizer or a destructor executed by Cc::drop, which sets the finalizing and
+    // dropping flags without a collection being in progress. Clear them until this collection ends, otherwise
+    // is_tracing() would return false during the tracing phases of this collection
+    #[cfg(feature = "finalization")]
+    let _finalizing_guard = replace_state_field!(finalizing, false, state);
+    let _dropping_guard = replace_state_field!(dropping, false, state);
+
     #[cfg(feature = "finalization")]
     for _ in 0..10 {
         // Limit to 10 executions. A collection usually completes in 2 executions, so passing
